@@ -3,6 +3,9 @@ CONSTANTS NB = 2
  MaxCrash = 2
  RepairTornTail = FALSE
  RepairAtomicContext = TRUE
+ MaxEdge = 0
+ ScanStride = "align"
+ CaskAdvance = "align"
  RepairScanPromotes = TRUE
 INVARIANTS Opens
 CHECK_DEADLOCK FALSE
